@@ -93,4 +93,42 @@ SPEC = {
             {"file": "src/geom2/align2/jacobian.rs", "name": "point_surface_jacobian", "lean": "point_surface_jacobian"},
         ],
     },
+    "C11": {
+        "imports": ["Engeom.Model.Circle"],
+        "cfg": {
+            "types": {"Circle2": "Circle α", "Arc2": "Arc α", "AngleDir": "AngleDir"},
+            "rust_names": {"Circle α": "Circle2", "Arc α": "Arc2"},
+            "fields": {"Circle α": {"center": ("c", "V2"), "ball": ("", ("st", "CircleBall"))},
+                       "CircleBall": {"radius": ("r", "S")},
+                       "Arc α": {"circle": ("circle", ("st", "Circle α")), "angle0": ("angle0", "S"), "angle": ("angle", "S")}},
+            "names": {"FRAC_PI_2": ("((Scalar.pi : α) / (2 : α))", "S"), "Ccw": ("AngleDir.ccw", "AngleDir"), "Cw": ("AngleDir.cw", "AngleDir")},
+            "binop": {("*", ("st", "Rot2 α"), "V2"): ("Rot2.apply", "V2")},
+            "extern": {"dist": ("dist2", ["V2", "V2"], "S"),
+                       "Iso2::rotation": ("Rot2.ofAngle", ["S"], ("st", "Rot2 α")),
+                       "Circle2::new": ("(fun x y r => (Circle.mk (V2.mk x y) r : Circle α))", ["S", "S", "S"], ("st", "Circle α")),
+                       "directed_angle": ("directedAngle", ["V2", "V2", "AngleDir"], "S")},
+        },
+        "fns": [
+            {"file": "src/geom2/circle2.rs", "impl": "Circle2", "name": "from_3_points", "lean": "Circle2_from_3_points"},
+            {"file": "src/geom2/circle2.rs", "impl": "Circle2", "name": "point_at_angle", "lean": "Circle2_point_at_angle"},
+            {"file": "src/geom2/circle2.rs", "impl": "Circle2", "name": "angle_of_point", "lean": "Circle2_angle_of_point"},
+            {"file": "src/geom2/circle2.rs", "impl": "Circle2", "name": "distance_to", "lean": "Circle2_distance_to"},
+            {"file": "src/geom2/circle2.rs", "impl": "Circle2", "name": "intersections_with", "lean": "Circle2_intersections_with"},
+            {"file": "src/geom2/circle2.rs", "impl": "Circle2", "name": "tangent_points_to", "lean": "Circle2_tangent_points_to"},
+            {"file": "src/geom2/circle2.rs", "impl": "Arc2", "name": "length", "lean": "Arc2_length"},
+            {"file": "src/geom2/circle2.rs", "impl": "Arc2", "name": "point_at_angle", "lean": "Arc2_point_at_angle"},
+            {"file": "src/geom2/circle2.rs", "impl": "Arc2", "name": "point_at_fraction", "lean": "Arc2_point_at_fraction"},
+            {"file": "src/geom2/circle2.rs", "impl": "Arc2", "name": "point_at_length", "lean": "Arc2_point_at_length"},
+        ],
+    },
+    "C20": {
+        "imports": ["Engeom.Model.Flatten"],
+        "cfg": {},
+        "fns": [
+            # the body of the per-face loop of calc_face_angles (a, b, c = the three edge lengths of the face)
+            {"file": "src/geom3/mesh/conformal.rs", "name": "calc_face_angles.face", "lean": "face_angles",
+             "fragment": r"fn calc_face_angles.*?let face_angles = (if a > b \+ c.*?\n        \});",
+             "params": [["a", "S"], ["b", "S"], ["c", "S"]], "ret": ("tup", ["S", "S", "S"])},
+        ],
+    },
 }
